@@ -206,10 +206,21 @@ PROPS["C27"] = dict(
                 "Holds for all histories by induction over the class invariant.")
 
 PROPS["C26"] = dict(
-    contracts=[], harness="harness.c26", level="exploration", technique="bounded enumeration (exhaustive small domain + structured large values) of the real helpers -- stand-in for the planned loop-invariant proof",
-    explanation="Bounded stand-in: int <-> Base64 round trip for all ints below 64^2+2, powers of 64 +-1 and random ints up to 1000 bits x minimum lengths 0..8; code <-> binary round "
-                "trip for all strings up to length 3/4 and random strings up to length 12; nabSextets against the leading-bits definition for every l. The loop-invariant proof "
-                "of intToB64/b64ToInt sketched in DESIGN.md (uninterpreted E/D with induction axioms) is not built yet.")
+    contracts=["contracts.c26_b64"], harness="harness.c26", level="other",
+    technique="contract-based deductive verification (pyvc: VCs from the real AST, loops cut by invariants, z3; arithmetic fact schemas checked by Lean) for "
+              "intToB64/b64ToInt; bounded enumeration of the real helpers for the code<->binary helpers and the bytes flavour",
+    trusted_base=["x << k == x * 2**k, a | (x << k) == a + (x << k) for 0 <= a < 2**k, 2**(k+6) == 64 * 2**k on non-negative Python ints: used as instances, "
+                  "proved as Nat theorems by Lean (lean/BitLemmas.lean, core library, re-checked on every run)",
+                  "the induction principle over the naturals is applied by the generator: base and step are obligations, the universally quantified "
+                  "conclusion is then assumed (lemma G, lemma H in contracts/c26_b64.py)",
+                  "str as a window of an SMT array of one-character strings; ''.join(deque) is that window; collections.deque.appendleft prepends"],
+    assumptions=["l >= 1 (l = 0 is the recorded finding intToB64(i, 0) == '')", "b64ToInt on str (the bytes flavour decodes first: bounded tier)"],
+    explanation="PROVED for integers of any size and strings of any length: the two lookup tables are mutually inverse bijections on 0..63 with 0 -> 'A' (checked "
+                "exhaustively on the tables obtained by executing the module-level statements extracted from the real source); intToB64(i, l) returns max(l, k) "
+                "characters whose e-th least significant one is the table entry of (i // 64**e) % 64 and whose leading ones are 'A' (two loop invariants); "
+                "b64ToInt(s) raises ValueError iff s is empty, KeyError only for a character outside the table, else returns sum D(s[n-1-e]) * 64**e (loop "
+                "invariant); LEMMA by induction over these two postconditions: b64ToInt(intToB64(i, l)) == i. BOUNDED (not proved): codeB64ToB2/codeB2ToB64/"
+                "nabSextets and the bytes flavour -- exhaustive small domain plus structured large values in harness/c26.py.")
 
 PROPS["C25"] = dict(
     contracts=[], harness="harness.c25", level="exploration", technique="bounded runtime contract on the real Boxer.run / Boxer.end over random box forests -- stand-in for the planned exen/run contracts",
